@@ -34,7 +34,7 @@ ASSUMPTIONS = [
     '(the statement does not say whether 1 is a wrong-typed 1.0)',
 ]
 ANCHORS = ['TableValidator._validate_json', 'TableValidator._validate_hdf5', 'TableValidator._valid_sparse_data', 'TableValidator._valid_dense_data', 'TableValidator._valid_rows', 'TableValidator._valid_columns', 'TableValidator._valid_hdf5_metadata_v210', 'Table.to_json', 'Table.to_hdf5']
-REQUIRED = ['must_reject_through_command', 'dressed_documents_accepted_and_loaded', 'files_with_utc_offset_in_date', 'accept_with_explicit_version',
+REQUIRED = ['accept_subset_command_output', 'subset_requests_naming_an_id_twice', 'must_reject_through_command', 'dressed_documents_accepted_and_loaded', 'files_with_utc_offset_in_date', 'accept_with_explicit_version',
             'must_reject_with_explicit_version', 'accept_json', 'accept_hdf5', 'accept_after_load', 'accept_cli', 'json_mutants',
             'hdf5_mutants', 'pair_mutants', 'must_reject_checked',
             'accepted_and_loaded']
@@ -497,6 +497,48 @@ def run_case(ctx, index):
             for p in (hp2, jp2, ctx.path('c15_%d_c.biom' % index)):
                 if os.path.exists(p):
                     os.remove(p)
+        # files written by the subset-table command (the JSON slicer and the
+        # HDF5 route), the ids file in any order and, now and then, naming an
+        # id twice
+        if index % 3 == 1:
+            sp_ = ctx.path('c15_%d_s.out' % index)
+            ip_ = ctx.path('c15_%d_s.ids' % index)
+            try:
+                ax = r.choice(['sample', 'observation'])
+                ids_ = [str(i) for i in t.ids(axis=ax)]
+                ask = r.sample(ids_, r.randint(1, len(ids_)))
+                if r.random() < .3:
+                    ask.insert(r.randrange(len(ask) + 1), r.choice(ask))
+                    ctx.count('subset_requests_naming_an_id_twice')
+                if all(i == i.strip() and i and '\t' not in i and
+                       '\n' not in i and '\r' not in i and
+                       not i.startswith('#') for i in ask):
+                    with open(ip_, 'w', encoding='utf-8') as f:
+                        f.write('\n'.join(ask) + '\n')
+                    for flag, src in (('-j', jp), ('-i', hp)):
+                        if os.path.exists(sp_):
+                            os.remove(sp_)
+                        rr = _cli(['subset-table', flag, src, '-a', ax, '-s',
+                                   ip_, '-o', sp_])
+                        desc = dict(base, fmt='subset-table ' + flag,
+                                    mutation=None, asked=ask, axis=ax)
+                        if rr.exit_code != 0:
+                            # what the command may refuse is C14's subject
+                            ctx.count('subset_command_refused')
+                            continue
+                        v, detail = validate(ctx, sp_)
+                        if v != 'valid':
+                            raise Violation('C15/writer-output-rejected/'
+                                            'subset-table' + flag, 'validator '
+                                            'says %s (%s) for a file the '
+                                            'subset-table command wrote; '
+                                            'case=%r' % (v, detail, desc))
+                        ctx.count('accept_subset_command_output')
+                        ctx.case(desc, True)
+            finally:
+                for p in (sp_, ip_):
+                    if os.path.exists(p):
+                        os.remove(p)
         doc0 = json.loads(text)
         check_loadable(ctx, jp, doc0, dict(base, fmt='json', mutation=None))
         # -------------------------------------------------- JSON mutants
